@@ -25,6 +25,13 @@
    Loops are structural recursions on explicit fuel (outer loop `fuel`, line search and initial QUB loop `ls_fuel`).
 
    Not modelled: printing, timers, lqr.min_rcond (reported, never read), exceptions thrown by user functions.
+   Conventions: infinite sides of U are `None` (never active in is_constr_inactive; the code compares with ±inf, which differs only
+   when u − γ∇ψ is itself infinite); std::fmax / std::fmin of the projected step are cmax / cmin (equal unless an operand is NaN).
+   Observations made while modelling (no property depends on them): (1) with L_0 <= 0 the finite-difference sweep of the initial
+   Lipschitz estimate runs eval.backward on the perturbed point u − h AFTER the sweep at u, so the shared buffer qr (q_k, r_k) that a
+   Gauss-Newton step at k = 0 reads belongs to u − h, not to u (the model threads qr exactly like that); (2) the two unit-step
+   criteria use next->xû / next->p as scratch space (modelled by crit_scratch; never read before rewritten); (3) with
+   disable_acceleration the vector q is never written: `q.allFinite()` and the progress callback read uninitialised memory.
    `Iterate::u` (the copy of the inputs kept for L-BFGS) IS modelled (iul).  `curr->xu == next->xu` compares whole storage
    vectors in the code; the model compares the inputs (the simulated part is a function of them unless it contains NaN). *)
 From Coq Require Import List ZArith Bool Arith.
